@@ -254,3 +254,27 @@ package proto
 //@   ensures inv_idx: pa_idx(pr.nodes, pr.indices, pr.indexOffset)
 //@   ensures inv_par: pa_par(pr.nodes, pr.indexOffset)
 //@   ensures inv_size: len(pr.indices) == len(pr.nodes)
+
+// ---------------------------------------------------------------- vote store (C09)
+
+//@ sort Votes = []VoteTracker
+//@ sort VoteT = VoteTracker
+
+// Vote rule of the property statement: a vote for a later target epoch replaces
+// the stored next vote; an older or equal one changes nothing; the very first
+// vote at epoch 0 is accepted.  Nobody else's vote is touched.
+//@ func (st *ProtoVoteStore) ProcessAttestation(index, blockRoot, headSlot) ok
+//@   property C09
+//@   requires st != nil && st.spec != nil && st.spec.SLOTS_PER_EPOCH != 0
+//@   requires index < 4611686018427387904
+//@   assigns st.votes, st.changed
+//@   ensures ok
+//@   ensures grown: len(st.votes) >= index + 1 && len(st.votes) >= old(len(st.votes))
+//@   ensures others: forall k :: {st.votes[k]} 0 <= k && k < old(len(st.votes)) && k != index ==> st.votes[k] == old(st.votes[k])
+//@   ensures replaced: index < old(len(st.votes)) && headSlot / st.spec.SLOTS_PER_EPOCH > old(st.votes[index].NextTargetEpoch) ==> st.votes[index].Next == NodeRef(headSlot, blockRoot) && st.votes[index].NextTargetEpoch == headSlot / st.spec.SLOTS_PER_EPOCH && st.votes[index].Current == old(st.votes[index].Current) && st.votes[index].CurrentTargetEpoch == old(st.votes[index].CurrentTargetEpoch) && st.changed
+//@   ensures kept: index < old(len(st.votes)) && headSlot / st.spec.SLOTS_PER_EPOCH <= old(st.votes[index].NextTargetEpoch) && headSlot / st.spec.SLOTS_PER_EPOCH != 0 ==> st.votes[index] == old(st.votes[index]) && unchanged(st.changed)
+
+//@ func (st *ProtoVoteStore) HasChanges() r
+//@   property C09
+//@   requires st != nil
+//@   ensures r == st.changed
